@@ -74,6 +74,13 @@ class G:
         later = list(range(i + 1, self.n))
         if r < 0.5 or depth >= 2:
             return self.leaf()
+        if r < 0.54:
+            # a forced token as the only item of an action-free alternative: the generator inlines such alternatives into helper calls
+            # (seq_alts, repeated, gathered, lookaheads), where the token must still be asked for lazily
+            alts = [Alt((Named(None, Forced(Lit("+"))),), None)]
+            if self.rnd.random() < 0.5:
+                alts.insert(0, Alt((Named(None, self.leaf()),), None))
+            return Group(tuple(alts))
         if r < 0.72 and later:
             return Ref(f"r{self.rnd.choice(later)}")
         return Group(tuple(self.alt(i, depth + 1, in_group=True) for _ in range(self.rnd.randint(1, 3))))
@@ -83,6 +90,8 @@ class G:
         r = rnd.random()
         if r < 0.38:
             return self.nonnull_atom(i, depth), True
+        if r < 0.40:
+            return Opt(Plus(self.leaf())), False  # finding F17c
         if r < 0.48:
             return Opt(self.nonnull_atom(i, depth)), False
         if r < 0.56:
@@ -347,6 +356,7 @@ def check_grammar(acc, rules, words, scratch, origin, variants=True):
             except BaseException as e:  # noqa: BLE001
                 acc.violation("generator-crashed-on-variant", {**case0, "variant": name}, {"error": f"{type(e).__name__}: {str(e)[:300]}"})
     bad = 0
+    has_opt_plus = _has_opt_plus(rules)
     for w in words:
         toks = mk_tokens(w)
         a = run_gen(cls, toks)
@@ -357,6 +367,9 @@ def check_grammar(acc, rules, words, scratch, origin, variants=True):
             acc.nontrivial(base.h64(text, w))
         if a[0] == "TIMEOUT" or b[0] == "REF-RECURSION":
             acc.inconc("case-watchdog" if a[0] == "TIMEOUT" else "reference recursion", {"grammar": text, "word": w})
+            continue
+        if a != b and has_opt_plus and _empty_as_none(a) == _empty_as_none(b):
+            acc.finding("F17c", text[-160:])  # an optional one-or-more that matches nothing yields [] where PEG semantics give None
             continue
         if a != b:
             bad += 1
@@ -372,6 +385,32 @@ def check_grammar(acc, rules, words, scratch, origin, variants=True):
                     acc.violation("result-changes-under-" + name, {**case0, "word": w, "variant": name}, {"original": repr(a)[:300], "variant": repr(c)[:300]})
     if len(acc.samples) < 4:
         acc.sample({"grammar": text[text.index("start"):][:400], "words": len(words), "accepted": acc.counters.get("result_ok", 0)})
+
+
+def _empty_as_none(v):
+    if isinstance(v, list):
+        return None if not v else [_empty_as_none(x) for x in v]
+    if isinstance(v, tuple):
+        return tuple(_empty_as_none(x) for x in v)
+    return v
+
+
+def _has_opt_plus(rules):
+    """input side of finding F17c: some optional wraps a one-or-more repetition directly (`[x+]`)"""
+    found = []
+
+    def walk(n):
+        if isinstance(n, Opt) and isinstance(n.item, Plus):
+            found.append(n)
+        for f in getattr(n, "__dataclass_fields__", {}):
+            v = getattr(n, f)
+            for x in v if isinstance(v, (list, tuple)) else [v]:
+                if hasattr(x, "__dataclass_fields__"):
+                    walk(x)
+
+    for r in rules:
+        walk(r)
+    return bool(found)
 
 
 def _features(rules):
